@@ -115,7 +115,7 @@ def approx_init_contract(m, h, given):
                ("callers_list_of_diagrams_untouched", len(g["lst"]) == m and all(x is y for x, y in zip(g["lst"], g["ds"])), "P"),
                ("landscape_computed_once", len(e.ghost.get("acompute_calls", [])) == 1, "P")]
         if not (isinstance(used, Arr) and used.ndim == 2):
-            return out + [("uses_a_diagram", False, "P")]
+            return out + [("uses_a_diagram", False, "S")]
         # every bar used is a finite bar of dgms[h], and every finite bar of dgms[h] is used (mask compression D6)
         info = getattr(used, "compress", None)
         out.append(("bars_used_are_the_finite_bars_of_the_requested_degree", info is not None and info.base is D.buf if hasattr(info, "base") else info is not None, "S"))
